@@ -390,7 +390,47 @@ func checkListNamespaces(c *Ctx, res *report.Result, rule string) {
 			res.Check(ok, rule, "ListNamespaces: element kept only if IsAllowed(its name)", instrPos(c.Prog, call), "append is control-dependent on IsAllowed(ns.NamespaceInfo.Name) of the same element", "a namespace is added to the filtered list without being admitted by IsAllowed on its own name")
 		}
 		if nApp == 0 {
-			res.Viol(rule, "ListNamespaces: element kept only if IsAllowed(its name)", fnPos(c.Prog, f), "no filtering append found")
+			// the other exact idiom: slices.DeleteFunc(list, func(ns) bool { return !IsAllowed(ns.NamespaceInfo.Name) })
+			okDel := false
+			for _, call := range flow.Calls(f) {
+				cal := flow.StaticCallee(call.Common())
+				if cal == nil || cal.Pkg == nil || cal.Pkg.Pkg.Path() != "slices" || !strings.HasPrefix(cal.Name(), "DeleteFunc") || len(call.Common().Args) != 2 {
+					continue
+				}
+				pred, _ := closureFn(call.Common().Args[1])
+				if pred == nil || len(pred.Params) != 1 {
+					continue
+				}
+				good := true
+				nRet := 0
+				for _, b := range pred.Blocks {
+					for _, ins := range b.Instrs {
+						ret, isR := ins.(*ssa.Return)
+						if !isR || len(ret.Results) != 1 {
+							continue
+						}
+						nRet++
+						v := flow.Ret(ret)[0]
+						neg, isNot := v.(*ssa.UnOp)
+						if !isNot || neg.Op != token.NOT {
+							good = false
+							continue
+						}
+						gc, isC := neg.X.(*ssa.Call)
+						if !isC || !flow.IsCallTo(&gc.Call, authPkg, "AccessControl", "IsAllowed") || !derivesFromElem(gc.Call.Args[len(gc.Call.Args)-1], pred.Params[0]) {
+							good = false
+						}
+					}
+				}
+				if good && nRet > 0 {
+					okDel = true
+				}
+			}
+			if okDel {
+				res.Hold(rule, "ListNamespaces: element kept only if IsAllowed(its name)", fnPos(c.Prog, f), "slices.DeleteFunc with predicate !IsAllowed(element's name)")
+			} else {
+				res.Undec(rule, "ListNamespaces: element kept only if IsAllowed(its name)", fnPos(c.Prog, f), "neither a filtering append under IsAllowed(element's name) nor slices.DeleteFunc(list, !IsAllowed(element's name)) was found: the filter's shape is not one the rule can decide (an index loop that deletes in place must not skip the element that slides into the freed slot)")
+			}
 		}
 		// the conditional: when namespaceAccess != nil and list present, returned response is the one modified
 	}
